@@ -118,6 +118,20 @@ pub fn worker(ch: Channel, n: usize, mut r: Rng, h: Handle, prefix: String) -> (
                             errs.push(format!("ch{} seq {} basic_consume returned tag {:?}, generated {:?}", id, seq, c.consumer_tag(), want));
                         }
                         seq += 1;
+                        // sometimes the server cancels the consumer first (queue deleted):
+                        // the client's own cancel is still a synchronous call whose CancelOk
+                        // must come back to it
+                        if r.chance(1, 3) {
+                            let nowait = r.bool();
+                            h.inject(crate::wire::enc_method(
+                                id,
+                                amq_protocol::protocol::AMQPClass::Basic(amq_protocol::protocol::basic::AMQPMethod::Cancel(amq_protocol::protocol::basic::Cancel { consumer_tag: want.clone(), nowait })),
+                            ));
+                            match c.receiver().recv_timeout(crate::session::W) {
+                                Ok(amiquip::ConsumerMessage::ServerCancelled) => {}
+                                other => errs.push(format!("ch{} consumer {:?}: {:?} after a server cancel", id, want, other.map(|_| "another message"))),
+                            }
+                        }
                         // cancel is synchronous too
                         match c.cancel() {
                             Ok(()) => {}
